@@ -6,6 +6,12 @@ VERIF = os.path.dirname(os.path.dirname(os.path.abspath(__file__)))
 rnd, outroot, wtprefix = sys.argv[1], sys.argv[2], sys.argv[3]
 props = [json.loads(l) for l in open(os.path.join(VERIF, "properties.jsonl"))]
 EMPH = {
+ "9": ("This round: implement a small, plausible FEATURE or EXTENSION — support for something the code skips or does not do today (another sFlow "
+       "record or sample type, IPv6 where only IPv4 is handled, a new setting or flag, another element data type, template withdrawal or expiry, "
+       "a limit that protects the collector, a statistics counter, friendlier handling of some error, a retry or a timeout) — whose implementation "
+       "is subtly incomplete or wrong, so that the property breaks in an interaction between the new code and existing behaviour. The feature "
+       "itself should work in the obvious cases; the violation should need a less obvious case. Different mechanism, code site and trigger from "
+       "everything listed; not detectable by a data-race detector alone; ordinary traffic with default settings must look healthy."),
  "8": ("This round has no prescribed dimension: read the code that implements the property's mechanism (and its callers in ./vflow) closely and "
        "seed the subtlest, most realistic defect you can find that none of the listed ideas covers — different mechanism, different code site, "
        "different trigger. Think of what a careful reviewer would still wave through: a changed default of a helper, an early return that skips a "
